@@ -429,11 +429,19 @@ func (a *App) Run(w Widget) error {
 					return err
 				}
 			case vaxis.FocusIn:
-				cmd, err := w.HandleEvent(MouseEnter{}, TargetPhase)
-				if err != nil {
-					return err
+				// We don't know where the pointer is until the
+				// next mouse event. The root widget is entered,
+				// unless it already is, and recorded as such so
+				// that it is left again when the pointer moves
+				// or the focus is lost
+				if len(mh.lastHits) == 0 {
+					cmd, err := w.HandleEvent(MouseEnter{}, TargetPhase)
+					if err != nil {
+						return err
+					}
+					a.handleCommand(cmd)
+					mh.lastHits = []hitResult{{w: w}}
 				}
-				a.handleCommand(cmd)
 			case vaxis.FocusOut:
 				mh.mouse = nil
 				err := mh.mouseExit(a)
